@@ -23,6 +23,35 @@ def check(chk, thorough=False):
     chk.run('C01.d', 'R-ORDER+R-GUARD', 'receiver: setup only on START, mismatch rejected before any write, delivery only under END and of the written item', lambda ob: c01d(tree, ob), floor=7)
     chk.run('C01.e', 'R-GUARD+R-WHO', "'success' is signalled for a sent bundle only in the ACK handler under END", lambda ob: c01e(tree, ob), floor=1)
     chk.run('C01.f', 'R-ORDER', 'every path from send_bundle_started to a return sends a segment or re-arms the queue', lambda ob: c01f(tree, ob), floor=1)
+    chk.run('C01.g', 'R-WHO', 'the active-transfer state of each direction is written only by its own setup / teardown / pump functions', lambda ob: c01g(tree, ob), floor=6)
+    chk.run('C01.h', 'R-SCHEMA', 'segment data and extension lengths are verified against what was read, also when empty (= C07.c)', lambda ob: _c07c(tree, ob), floor=6)
+
+
+def _c07c(tree, ob):
+    from .c07 import c07c
+    return c07c(tree, ob)
+
+
+WRITERS = {
+    # attribute -> functions of ContactHandler allowed to write it
+    '_tx_tmp': {'__init__', '_process_queue', '_tx_teardown'},
+    '_tx_length': {'__init__', '_process_queue', '_tx_teardown'},
+    '_rx_tmp': {'__init__', '_rx_setup', '_rx_teardown'},
+    '_tx_next_id': {'__init__', 'next_id'},
+}
+
+
+def c01g(tree, ob):
+    cls = tree.klass(SESS, 'ContactHandler')
+    for attr, allowed in WRITERS.items():
+        stores = stores_to_self_attr(cls, attr)
+        ob.require(stores, 'no writes to ' + attr)
+        for (func, stmt, kind, val) in stores:
+            if func.name in allowed:
+                ob.site(SESS, stmt, '{} written in {}'.format(attr, func.name))
+            else:
+                ob.violate(SESS, 'ContactHandler.' + func.name, src(stmt), '{} state ({}) is written from {}, which belongs to the other direction / another phase: '
+                           'an unrelated event can wreck the transfer in progress'.format('TX' if attr.startswith('_tx') else 'RX', attr, func.name), stmt)
 
 
 # ---------------------------------------------------------------- C01.a
@@ -116,6 +145,10 @@ def c01b(tree, ob):
                 if got is None:
                     if pm(buf + ' + $x', val) is not None:
                         _check_append(tree, ob, clsname, attr, func, stmt, val.right)
+                        continue
+                    if pm('$x + ' + buf, val) is not None:
+                        ob.violate(SESS, qual, src(stmt), 'octets are inserted at the head of a FIFO byte buffer: they can land in the middle of a message that was '
+                                   'already partly handed to the socket, and they overtake queued messages', stmt)
                         continue
                     raise AnalysisError('C01.b: unrecognised write to {}: {}'.format(label, src(stmt)))
                 _check_drop(tree, ob, clsname, attr, func, stmt, got['n'])
